@@ -133,7 +133,7 @@ CHECKS = {
         'trace data. Purity of numpy/shapely internals is observed, not proved.',
    design='5/C09'),
  'C16': dict(
-   technique='Coq model of the routing (buckets by exact type, writer extend/append, flatten, nest_level) with theorems for single objects, foreign values, waveguide groups, the single-column writer and the general clause (any mixture of supported entries, any sequence of extends, foreign entries anywhere) + identity-level differential on real objects over call histories + source translator: append / extend of the five writers are re-translated from /repo on every run and proved to be the model\'s writer_append / writer_extend (coq/tie/EquivAe.v); Device.append / extend / parse_objects and the registry of Device.__init__ are translated from device.py and proved to be the model\'s dev_append / dev_extend / parse_objects over any history, and the property theorems are restated on the translated code (coq/tie/EquivDev.v)',
+   technique='Coq model of the routing (buckets by exact type, writer extend/append, flatten, nest_level) with theorems for single objects, foreign values, waveguide groups, the single-column writer and the general clause (any mixture of supported entries, any sequence of extends, foreign entries anywhere) + identity-level differential on real objects over call histories + source translator: append / extend of the five writers are re-translated from /repo on every run and proved to be the model\'s writer_append / writer_extend (coq/tie/EquivAe.v); Device.append / extend / parse_objects and the registry of Device.__init__ are translated from device.py and proved to be the model\'s dev_append / dev_extend / parse_objects over any history, and the property theorems are restated on the translated code (coq/tie/EquivDev.v); helpers.flatten / nest_level are translated with open recursion and the model\'s flat / nest_i proved to be their unique solution (coq/tie/EquivHl.v)',
    text='Props/C16.v: a single supported object goes to the collection of its own type and nowhere else; any other type is rejected '
         'with TypeError and nothing is stored; Device.extend with waveguides and groups of waveguides appends them in order with '
         'the grouping preserved and touches no other collection; a trench writer built from one column equals the one built from '
